@@ -60,8 +60,9 @@ EvCreate ==
      /\ pc[p] = "create" /\ slot[p] = Ev.slot
      /\ CreateExcl(p) /\ nfaults' = nfaults
      /\ (Ev.res = "ok"     => pc'[p] = "write")
-     /\ (Ev.res = "EEXIST" => pc'[p] = "probe")
-     /\ Ev.res \in {"ok", "EEXIST"}
+     /\ (Ev.res = "EEXIST" => pc'[p] = "probe" /\ Ev.slot \notin TooLong)
+     /\ (Ev.res = "ENAMETOOLONG" => pc'[p] = "probe" /\ Ev.slot \in TooLong)
+     /\ Ev.res \in {"ok", "EEXIST", "ENAMETOOLONG"}
 EvWrite ==
   /\ Ev.k = "write" /\ Consume
   /\ LET p == Ev.p IN pc[p] = "write" /\ slot[p] = Ev.slot /\ Ev.res = "ok" /\ Write(p) /\ nfaults' = nfaults
